@@ -14,6 +14,9 @@ A property module provides
                               and Y is judged by run_case as usual (a second
                               run of the programmatic API must not inherit
                               anything from the first)
+    history_key(case)      -> optional alternative: a small hashable (or None);
+                              the first enumerated case of each key becomes a
+                              history case (at most HISTORY_MAX, default 8)
     BOUND[tier]            -> text describing the completed bound
 
 ``run_case`` result keys (all optional except none):
@@ -337,8 +340,22 @@ def run_check(mod, tier, seed, chunk=None, gate_n=48):
     flt = _env_pass_filter(mod)
     if flt is not None:
         gen = (c for c in gen if flt(c))
-    elif hasattr(mod, 'history_cases'):
-        hs = list(mod.history_cases(tier))
+    elif hasattr(mod, 'history_cases') or hasattr(mod, 'history_key'):
+        hs = list(mod.history_cases(tier)) if hasattr(mod, 'history_cases') else []
+        if hasattr(mod, 'history_key'):
+            # the first case of the enumeration for each key the module names
+            # (at most HISTORY_MAX of them, looked for among the first 400 000)
+            picked = {}
+            hmax = getattr(mod, 'HISTORY_MAX', 8)
+            for n_, c_ in enumerate(mod.cases(tier, seed)):
+                k_ = mod.history_key(c_)
+                if k_ is not None and k_ not in picked:
+                    picked[k_] = c_
+                    if len(picked) >= hmax:
+                        break
+                if n_ > 400000:
+                    break
+            hs += list(picked.values())
         gen = itertools.chain(gen, (['__after__', x, y] for i, x in enumerate(hs)
                                     for j, y in enumerate(hs) if i != j))
     first_cases = []
